@@ -123,7 +123,8 @@ def run(ctx: vlib.Ctx):
                                            "C17_type_ident_chain_partial", "C17_type_ident_chain_refuted", "C17_local_rendering_not_chain",
                                            "C17_typeref_sites_partial", "C17_typeref_sites_refuted", "C17_typeref_known_raw_witnesses",
                                            "C17_collection_typerefs_are_identifiers", "C17_class_reference_is_chain", "C17_local_class_alias",
-                                           "C17_clean_id_model_is_kernel", "C17_local_render_is_type_ident"], kernels=["K42", "K43"])
+                                           "C17_clean_id_model_is_kernel", "C17_local_render_is_type_ident", "C17_local_alias_binding_partial",
+                                           "C17_local_alias_binding_refuted"], kernels=["K42", "K44"])
     ctx.coqchk(["VerifProps.C17_closed", "VerifProps.C17_cleanid", "VerifProps.C17_typeref"])
     ctx.trusted += [
         "harness/c17_translate.py: Python ast -> Closed.v AST (fail-closed; interning of names is injective by construction); "
@@ -145,7 +146,7 @@ def run(ctx: vlib.Ctx):
         "kernel K42 (tools/kernels/k42_clean_id.py): the regular expression \\W|^(?=\\d) is read as a character map after checking that the pattern "
         "text and the body of clean_id are exactly the expected ones (fail closed); the \\w / \\d tables below code point 0x3000 come from Python's re "
         "with the pattern read from the source and are validated against the real clean_id exhaustively on every run; code points >= 0x3000 are outside the kernel",
-        "kernel K43 (tools/kernels/k43_type_ident.py): get_type_name_identifier / is_local_type_name are read after checking that their bodies are exactly "
+        "kernel K44 (tools/kernels/k44_type_ident.py): get_type_name_identifier / is_local_type_name are read after checking that their bodies are exactly "
         "the expected ones (fail closed; marker string read from the source), as a function of the rendering type_name(typ); compared per run with the real "
         "method (text pasted + object registered + alias) on every class and field annotation of the generated schemas. The table of type reference sites is "
         "an AST scan by NAME (type_name / get_type_name_identifier / clean_id must not be aliased: checked) whose classification rules (build-time raise, "
@@ -232,7 +233,7 @@ def run(ctx: vlib.Ctx):
 
     # ---- type_name model vs implementation, and vs the text of the generated error paths
     render_corr(ctx, all_res)
-    k43_corr(ctx, all_res)
+    k44_corr(ctx, all_res)
 
     # ---- per-program kernel-checked closedness (translation validation)
     t_workers = time.time() - t_start
@@ -523,13 +524,13 @@ def k42_corr(ctx):
     ctx.count(n=len(cases))
 
 
-def k43_corr(ctx, all_res):
-    """translated kernel K43 (get_type_name_identifier as a function of the rendering) vs the real method on the classes and field
+def k44_corr(ctx, all_res):
+    """translated kernel K44 (get_type_name_identifier as a function of the rendering) vs the real method on the classes and field
     annotations of the generated schemas, plus synthetic renderings around the marker"""
     import random
     from mashumaro.core.meta.helpers import is_local_type_name
     from mashumaro.core.meta.types.common import clean_id
-    if not ctx.kernel_report.get("K43", {}).get("ok") or not ctx.kernel_report.get("K42", {}).get("ok"):
+    if not ctx.kernel_report.get("K44", {}).get("ok") or not ctx.kernel_report.get("K42", {}).get("ok"):
         return
     cases = []
     for fam, r in all_res:
@@ -540,7 +541,7 @@ def k43_corr(ctx, all_res):
     ctx.hist("type-ident", "real-calls", n_real)
     ctx.hist("type-ident", "real-calls-local", sum(1 for c in cases if c[2] is not None))
     # synthetic renderings: the marker, broken markers, marker at the ends, digits first (what the real functions say about the string)
-    rng = random.Random(f"c17-k43-{ctx.seed}")
+    rng = random.Random(f"c17-k44-{ctx.seed}")
     parts = ["<locals>", "<local", "locals>", "<locals", "<", ">", ".", "m", "mk", "L", "_", "1", "typing.List[", "]", " ", "<<locals>>", "\u00e9", "K9"]
     synth = ["", "<locals>", "m.mk.<locals>.L", "m.L", "1m.<locals>.L", "typing.List[m.mk.<locals>.L]", "<locals", "m.<local>.L", "a<locals>"]
     for _ in range(ctx.budget(300, 3000)):
@@ -560,18 +561,18 @@ def k43_corr(ctx, all_res):
     ccases = [f"({lst(r)}, ({lst(t)}, {opt(a)}))" for r, t, a in cases]
     defs = ("Definition lN_eqb (a b : list N) : bool := if list_eq_dec N.eq_dec a b then true else false.\n"
             "Definition oN_eqb (a b : option (list N)) : bool := match a, b with Some x, Some y => lN_eqb x y | None, None => true | _, _ => false end.\n")
-    bad, log = vlib.coq_bad_idx(f"c17_k43_{ctx.seed}", "", "From VerifGen Require Import K42 K43.", defs, ccases,
-                                "fun c => lN_eqb (fst (K43.type_ident (fst c))) (fst (snd c)) && oN_eqb (snd (K43.type_ident (fst c))) (snd (snd c))",
-                                "list N * (list N * option (list N))", shard=2500, needs=["gen/K43.vo"])
-    name = ("K43 (get_type_name_identifier translated: pasted text + registered alias as a function of the rendering) vs the real method on the classes "
+    bad, log = vlib.coq_bad_idx(f"c17_k44_{ctx.seed}", "", "From VerifGen Require Import K42 K44.", defs, ccases,
+                                "fun c => lN_eqb (fst (K44.type_ident (fst c))) (fst (snd c)) && oN_eqb (snd (K44.type_ident (fst c))) (snd (snd c))",
+                                "list N * (list N * option (list N))", shard=2500, needs=["gen/K44.vo"])
+    name = ("K44 (get_type_name_identifier translated: pasted text + registered alias as a function of the rendering) vs the real method on the classes "
             "and annotations of the generated schemas + synthetic renderings")
     if bad is None:
         ctx.correspondence(name, len(cases), -1, log)
-        ctx.not_shown("translation validation K43", log)
+        ctx.not_shown("translation validation K44", log)
     else:
         ctx.correspondence(name, len(cases), len(bad), str([cases[i] for i in bad[:6]]))
         if bad:
-            ctx.not_shown("translation validation K43", f"rendering, real text, real alias: {[cases[i] for i in bad[:6]]!r}")
+            ctx.not_shown("translation validation K44", f"rendering, real text, real alias: {[cases[i] for i in bad[:6]]!r}")
     ctx.obligation("the real get_type_name_identifier was exercised on local and non-local classes", n_real > 0 and has_local,
                    f"{n_real} real calls")
     ctx.count(n=len(cases))
